@@ -232,7 +232,10 @@ class Context(DataProxy):
         # want to clone it to avoid actually mutating the config.
         # NOTE: a copy in both cases, so a caller-supplied list isn't mutated
         # either (it would grow one more responder with every call.)
-        watchers = list(kwargs.pop("watchers", self.config.run.watchers))
+        watchers = kwargs.pop("watchers", None)
+        if watchers is None:  # not given, as for run()
+            watchers = self.config.run.watchers
+        watchers = list(watchers)
         watchers.append(watcher)
         try:
             return runner.run(cmd_str, watchers=watchers, **kwargs)
